@@ -214,6 +214,45 @@ theorem stitch_source (dfs : List TS) (ub : List Int) (h : Stitchable dfs ub) (o
     simp only [List.mem_filter, inWindow, Bool.and_eq_true]
     exact ⟨mem_concatCols.mpr ⟨hex, rfl⟩, hlo, hhi⟩
 
+/-- the one-column case (`n = 1`, a stitched Series): a row `(t, v)` of series `i` appears exactly when `t` lies in
+    the interval of piece `i` -/
+theorem stitch_source_series (dfs : List TS) (ub : List Int) (h : Stitchable dfs ub) (oc : Option (List Char)) (n : Nat)
+    (hn : n ≤ 1) (l u : Bool) (hb : brackets oc = .ok (l, u)) (F : Frame)
+    (hF : stitch dfs Option.none (some ub) oc n = .ok (some F)) (t : Int) (vs : List (Option Int)) :
+    (t, vs) ∈ F.rows ↔ ∃ i, ∃ hi : i < ub.length, ∃ v, (t, v) ∈ dfs[i]'(by rw [h.len]; exact hi) ∧
+      lbOk l (loBound ub i) t = true ∧ ubOk u (.date ub[i]) t = true ∧ vs = padRow F.width [v] := by
+  obtain ⟨F', hF', hrows⟩ := stitch_eq dfs ub h oc n l u hb
+  rw [hF] at hF'; cases hF'
+  have hne : ub ≠ [] := by intro h0; have := h.two; simp [h0] at this
+  have hpl := pieces_length dfs ub n l u h.len hne
+  have hfl := framesOf_length dfs n
+  have hlen := h.len
+  have hn' : ¬ n > 1 := by omega
+  rw [hrows]
+  simp only [List.mem_flatMap, List.mem_map, Prod.mk.injEq]
+  constructor
+  · rintro ⟨f, hf, r, hr, rfl, rfl⟩
+    obtain ⟨i, hi, rfl⟩ := List.mem_iff_getElem.mp hf
+    have hi' : i < ub.length := by omega
+    have hfi : i < (framesOf dfs n).length := by omega
+    rw [pieces_getElem dfs ub n l u h.len i hi hi' hfi] at hr
+    simp only [List.mem_filter, inWindow, Bool.and_eq_true] at hr
+    have hfr : (framesOf dfs n)[i] = ⟨1, ofTS (dfs[i]'(by omega))⟩ := by simp [framesOf, hn']
+    rw [hfr] at hr
+    obtain ⟨hmem, hlo, hhi⟩ := hr
+    simp only [ofTS, List.mem_map] at hmem
+    obtain ⟨p, hp, rfl⟩ := hmem
+    exact ⟨i, hi', p.2, hp, hlo, hhi, rfl⟩
+  · rintro ⟨i, hi', v, hv, hlo, hhi, rfl⟩
+    have hi : i < (pieces dfs ub n l u).length := by omega
+    have hfi : i < (framesOf dfs n).length := by omega
+    refine ⟨(pieces dfs ub n l u)[i], List.getElem_mem hi, (t, [v]), ?_, rfl, rfl⟩
+    rw [pieces_getElem dfs ub n l u h.len i hi hi' hfi]
+    have hfr : (framesOf dfs n)[i] = ⟨1, ofTS (dfs[i]'(by omega))⟩ := by simp [framesOf, hn']
+    rw [hfr]
+    simp only [List.mem_filter, inWindow, Bool.and_eq_true, ofTS, List.mem_map]
+    exact ⟨⟨(t, v), hv, rfl⟩, hlo, hhi⟩
+
 /-- column `j` of such a row is series `i+j` at `t` -/
 theorem stitch_column (dfs : List TS) (i j n w : Nat) (t : Int) (hj : j < n) (hij : i + j < dfs.length) :
     (padRow w (((dfs.drop i).take n).map (·.get t)))[j]? = some (dfs[i + j].get t) := by
@@ -268,6 +307,101 @@ theorem stitch_decreasing (dfs : List TS) (ub : List Int) (oc : Option (List Cha
     (h1 : nonDecreasing ub = false) (h2 : nonDecreasing ub.reverse = true) :
     stitch dfs Option.none (some ub) oc n = stitch dfs.reverse Option.none (some ub.reverse) oc n := by
   simp [stitch, normalise, h1, h2]
+
+/-! ### df_unslice -/
+
+theorem pieces_eq_range (dfs : List TS) (ub : List Int) (h : Stitchable dfs ub) (n : Nat) (l u : Bool) :
+    pieces dfs ub n l u = (List.range ub.length).map fun k =>
+      if hk : k < (framesOf dfs n).length then
+        (⟨(framesOf dfs n)[k].width,
+          (framesOf dfs n)[k].rows.filter fun r => inWindow l u (loBound ub k) (.date (ub.getD k 0)) r.1⟩ : Frame)
+      else default := by
+  have hne : ub ≠ [] := by intro h0; have := h.two; simp [h0] at this
+  have hpl := pieces_length dfs ub n l u h.len hne
+  have hfl := framesOf_length dfs n
+  have hlen := h.len
+  apply List.ext_getElem
+  · simp [hpl]
+  · intro k h1 h2
+    have hk : k < ub.length := by omega
+    have hkf : k < (framesOf dfs n).length := by omega
+    rw [pieces_getElem dfs ub n l u h.len k h1 hk hkf]
+    simp [hkf, List.getD_eq_getElem?_getD, hk]
+
+/-- **unslice_restitch (partial)**: the first half of the inverse - cutting the stitched frame again at the bounds
+    with `'(]'`, as `df_unslice` does, returns exactly the piece each interval was assembled from (rows, values,
+    NaN padding).  NOT proved: that handing column `j` of piece `i` to bound `i+j`, dropping NaN rows and stitching
+    again reproduces the frame; that half is checked on the model by the `#guard`s below and on the implementation
+    by the round-trip cases of the correspondence check and by `laws`. -/
+theorem unslice_slices_partial (dfs : List TS) (ub : List Int) (h : Stitchable dfs ub) (n : Nat) (F : Frame)
+    (hF : stitch dfs Option.none (some ub) (some ['(', ']']) n = .ok (some F)) (i : Nat) (hi : i < ub.length) :
+    sliceWrap F.rows (loBound ub i) (.date ub[i]) (some ['(', ']']) =
+      .ok ((pieces dfs ub n false true)[i]'(by
+          rw [pieces_length _ _ _ _ _ h.len (by intro h0; have := h.two; simp [h0] at this)]; exact hi)
+        |>.rows.map fun r => (r.1, padRow F.width r.2)) := by
+  obtain ⟨F', hF', hrows⟩ := stitch_eq dfs ub h (some ['(', ']']) n false true rfl
+  rw [hF] at hF'; cases hF'
+  have hne : ub ≠ [] := by intro h0; have := h.two; simp [h0] at this
+  have hpl := pieces_length dfs ub n false true h.len hne
+  have hfl := framesOf_length dfs n
+  have hlen := h.len
+  have hub := nonDecreasing_pairwise ub h.inc
+  have hsw : ∀ rows : Rows (List (Option Int)),
+      sliceWrap rows (loBound ub i) (.date ub[i]) (some ['(', ']']) = sliceOne rows (loBound ub i) (.date ub[i]) (some ['(', ']']) := by
+    intro rows; unfold sliceWrap; split <;> first | rfl | (rename_i h1 h2; cases h2)
+  rw [hsw, sliceOne_eq _ _ _ _ false true rfl, hrows]
+  congr 1
+  have hi1 : i < (pieces dfs ub n false true).length := by omega
+  rw [List.filter_flatMap]
+  conv => lhs; rw [pieces_eq_range dfs ub h n false true]
+  rw [List.flatMap_map]
+  rw [Bitemp.flatMap_single _ i _ List.nodup_range]
+  · have hir : i ∈ List.range ub.length := List.mem_range.mpr hi
+    have hif : i < (framesOf dfs n).length := by omega
+    simp only [hir, if_true, hif, dite_true]
+    rw [pieces_getElem dfs ub n false true h.len i hi1 hi hif]
+    rw [List.filter_eq_self.mpr]
+    · simp [List.getD_eq_getElem?_getD, hi]
+    · intro r hr
+      simp only [List.mem_map, List.mem_filter] at hr
+      obtain ⟨r', ⟨_, hw⟩, rfl⟩ := hr
+      simpa [List.getD_eq_getElem?_getD, hi] using hw
+  · intro k hk hki
+    have hk' : k < ub.length := List.mem_range.mp hk
+    have hkf : k < (framesOf dfs n).length := by omega
+    simp only [hkf, dite_true]
+    rw [List.filter_eq_nil_iff]
+    intro r hr hw
+    simp only [List.mem_map, List.mem_filter] at hr
+    obtain ⟨r', ⟨_, hw'⟩, rfl⟩ := hr
+    simp only [inWindow, Bool.and_eq_true, List.getD_eq_getElem?_getD, hk', List.getElem?_eq_getElem,
+      Option.getD_some] at hw hw'
+    have a1 := (ubOk_iff true (.date ub[k]) r'.1).mp hw'.2
+    have a2 := (ubOk_iff true (.date ub[i]) r'.1).mp hw.2
+    simp only [if_true] at a1 a2
+    rcases Nat.lt_or_gt_of_ne hki with hlt | hgt
+    · -- k < i : the row is `≤ ub[k] ≤ ub[i-1]`, so it fails the lower bound of interval i
+      have hi0 : i ≠ 0 := by omega
+      have hle : ub[k] ≤ ub[i - 1]'(by omega) := by
+        by_cases he : k = i - 1
+        · subst he; exact Int.le_refl _
+        · exact (List.pairwise_iff_getElem.mp hub) k (i - 1) hk' (by omega) (by omega)
+      have b := hw.1
+      simp only [loBound, hi0, if_false, List.getD_eq_getElem?_getD] at b
+      rw [List.getElem?_eq_getElem (by omega)] at b
+      have b' := (lbOk_iff false (.date (ub[i - 1]'(by omega))) r'.1).mp (by simpa using b)
+      simp at b'; omega
+    · -- k > i : the row is `> ub[k-1] ≥ ub[i]`
+      have hk0 : k ≠ 0 := by omega
+      have hle : ub[i] ≤ ub[k - 1]'(by omega) := by
+        by_cases he : i = k - 1
+        · subst he; exact Int.le_refl _
+        · exact (List.pairwise_iff_getElem.mp hub) i (k - 1) hi (by omega) (by omega)
+      have b := hw'.1
+      simp only [loBound, hk0, if_false, List.getD_eq_getElem?_getD] at b
+      rw [List.getElem?_eq_getElem (by omega)] at b
+      have b' := (lbOk_iff false (.date (ub[k - 1]'(by omega))) r'.1).mp (by simpa using b)
+      simp at b'; omega
 
 theorem tod_range (t : Int) : 0 ≤ tod t ∧ tod t < DAY := ⟨tod_nonneg t, tod_lt t⟩
 
